@@ -17,6 +17,9 @@ def cases(draw, ml):
     sub = gen.tree_descs(4, max_depth=2, leaf=LEAF, min_leaves=2)
     n = draw(st.sampled_from([2, 2, 2, 3]))
     trees, rels = [], []
+    if draw(st.integers(0, 5)) == 0:
+        ta, tb, e = gen.targeted_near_miss(draw, ml, leaf=LEAF)
+        return {'trees': [ta, tb], 'rels': ['base', f'conflict:{e}'], 'cfg': draw(gen.configs(predicates=PREFIX_PREDICATES))}
     if draw(st.booleans()):
         # stratum: both operands extend the base at (partly) different leaf positions
         base = draw(gen.tree_descs(ml, leaf=LEAF, min_leaves=min(3, ml)))
